@@ -9,6 +9,7 @@ C07 and C09 statements about source TEXT for this family.
 import EtkVerif.Asm.ProgTextPest
 import EtkVerif.Asm.Ingest
 import EtkVerif.Asm.Refine
+import EtkVerif.Asm.ListingAsm
 namespace EtkVerif
 namespace Asm
 namespace ProgText
@@ -112,6 +113,41 @@ theorem assemble_prog (rnd : Nat → Nat) (fuel k : Nat) (items : List Item) (hf
       constructor
       · rintro ⟨rfl, rfl⟩; exact ⟨rfl, rfl⟩
       · rintro ⟨rfl, rfl⟩; exact ⟨rfl, rfl⟩
+
+/-- the items of a well-formed program text carry an operand exactly on the pushN opcodes: the side condition of the
+layout theorems (`C01_offsets`, `C01_jumpdest`) holds for every text of the family -/
+theorem himm_prog (head : List BlankLine) (items : List Item) (h : WF head items) :
+    ∀ code imm, Asm.Item.op code imm ∈ items.map (fun x => x.stmt.item) → (imm.isSome ↔ (0x60 ≤ code ∧ code ≤ 0x7f)) := by
+  intro code imm hm
+  obtain ⟨x, hx, hxe⟩ := List.mem_map.1 hm
+  have hwf := (h.2.1 x hx).2.1
+  cases hs : x.stmt with
+  | ins i =>
+    rw [hs] at hxe hwf
+    simp only [Stmt.item, Asm.Item.op.injEq] at hxe
+    obtain ⟨rfl, rfl⟩ := hxe
+    obtain ⟨hlt, _, hlen, _⟩ := (show Listing.Valid i from hwf)
+    have hex := Listing.cancun_extra i.op hlt
+    rw [hex] at hlen
+    unfold immLen at hlen
+    by_cases hp : 0x60 ≤ i.op ∧ i.op ≤ 0x7f
+    · simp only [hp, and_self, if_true] at hlen
+      have : i.imm.isEmpty = false := by
+        cases hi : i.imm with
+        | nil => rw [hi] at hlen; simp at hlen; omega
+        | cons a b => rfl
+      simp [this, hp]
+    · simp only [hp, if_false] at hlen
+      have : i.imm = [] := List.eq_nil_of_length_eq_zero hlen
+      simp [this, hp]
+  | pushE n ws s =>
+    rw [hs] at hxe hwf
+    simp only [Stmt.item, Asm.Item.op.injEq] at hxe
+    obtain ⟨rfl, rfl⟩ := hxe
+    obtain ⟨h1, h32, _⟩ := (show 1 ≤ n ∧ n ≤ 32 ∧ _ from hwf)
+    simp; omega
+  | apush l s r => rw [hs] at hxe; simp [Stmt.item] at hxe
+  | label name gap => rw [hs] at hxe; simp [Stmt.item] at hxe
 
 end ProgText
 end Asm
